@@ -11,7 +11,7 @@ REPLAYS = os.path.join(EVID, "replays")
 TRUSTED_BASE = [
     "Coq 8.16.1 kernel as run by coqc (full .vo build), including the vm_compute virtual machine; no native_compute",
     "axioms: none declared by this development; the per-theorem Print Assumptions output is in coverage.assumptions_report",
-    "translator /verif/translator/py2coq.py (Python ast -> Gallina for the listed kernels; logging calls erased)",
+    "translators /verif/translator/py2coq.py (pure kernels) and py2coq_imp.py (state-changing methods; per-method erase/oracle/ident/const assumptions in kernels_imp.py): Python ast -> Gallina for the listed kernels; logging calls erased",
     "correspondence harness /verif/harness (Python drivers, generators, canonicalisers) and `Eval vm_compute` of the model on generated cases.v files; no extraction is used",
     "modelled, not verified: pydantic coercion, ipaddress, gymnasium contains/flatten, numpy/`random` generators, CPython dict/set semantics, IEEE float rounding (models are exact Z/Q), YAML loading, PrimAITE code outside the modelled kernels",
 ]
@@ -170,7 +170,8 @@ def coq_make(targets, timeout=1500):
     """make the given targets of /verif/coq under a lock (checks may run concurrently)."""
     with open(os.path.join(COQ, ".lock"), "w") as lk:
         fcntl.flock(lk, fcntl.LOCK_EX)
-        if not os.path.exists(os.path.join(COQ, "Makefile")):
+        mk, cp = os.path.join(COQ, "Makefile"), os.path.join(COQ, "_CoqProject")
+        if not os.path.exists(mk) or os.path.getmtime(mk) < os.path.getmtime(cp):
             rc, out = _run(["coq_makefile", "-f", "_CoqProject", "-o", "Makefile"], 120, cwd=COQ)
             if rc:
                 return False, out
